@@ -149,6 +149,8 @@ def run(res, proof):
                 'IUPAC alphabet; distinct by (function, material, sequence(s))')
     res.exhaustive = False
     impl = [impl_op(iu, op) for op in ops]
+    from . import cu as _cu
+    _cu.rerun_sample(res, 'iupac_utils', ops, impl, lambda op: impl_op(iu, op), rng)
     lines = ['\t'.join(op) for op in ops]
     try:
         model = core.run_driver(lines + ['iupac.failing\tDNA', 'iupac.failing\tRNA'])
